@@ -640,7 +640,7 @@ def rule_replay(ctx, fx, config):
     # the replayed event: buf[idx].clone() ... returned.  Rule: the block that increments
     # total_replayed_events (the replay path marker) must reach a return only through the replay observation
     marks = lifted_stmt_blocks(fx, ni, lambda g, s_: s_["k"] == "assign" and s_["p"]["pr"] and render(g.sym_place(s_["p"])) == "self.total_replayed_events" and g.sym_rvalue(s_["rv"])[0] != "const", same_adt=LEADT)
-    okret = [b for b, i, adt, var, fl, ops, s_ in aggregates(ni) if adt.endswith("result::Result") and var == "Ok"]
+    okret = [b for b, i, adt, var, fl, ops, s_ in aggregates(ni) if s_["p"]["l"] == 0 and not s_["p"]["pr"] and adt.endswith("result::Result") and var == "Ok"]
     ctx.check(bool(marks) and must_pass(ni, marks, rb, to_blocks=okret), "REPLAY", "C07:REPLAY:next_impl:dominates",
               "every replayed event passes observe_budget_for_replay before it is returned",
               "a replayed event can be returned without passing the budget", config, ctx.where(ni, marks[0] if marks else None))
